@@ -368,11 +368,7 @@ fn assign_str(rng: &mut Rng, n: usize, shards: usize, style: u64) -> String {
     nat_list(&a)
 }
 
-#[test]
-fn verif_c01_stages() {
-    run_suite(
-        "c01_stages",
-        |rng, thorough| {
+pub fn gen_stages(rng: &mut Rng, thorough: bool) -> Vec<String> {
             let mut out = vec![];
             // --- aggregate_reports: pseudonym multiplicities 1,2,3,4; pseudonym order vs arrival order; wrap-around
             out.push("c01.agg sh 5,5 i:1:3,c:1:4".to_string());
@@ -402,16 +398,14 @@ fn verif_c01_stages() {
                 out.push(format!("c01.brk {mode} {} {}", if rng.bool() { 8 } else { 32 }, rows.join(",")));
             }
             out
-        },
-        exec,
-    );
 }
 
 #[test]
-fn verif_c01_e2e() {
-    run_suite(
-        "c01_e2e",
-        |rng, thorough| {
+fn verif_c01_stages() {
+    run_suite("c01_stages", gen_stages, exec);
+}
+
+pub fn gen_e2e(rng: &mut Rng, thorough: bool) -> Vec<String> {
             let mut out = vec![];
             // --- single shard, both modes, no padding: small structured inputs incl. corner multisets
             out.push("c01.e2e sh 1 0 prod - -".to_string());
@@ -492,7 +486,29 @@ fn verif_c01_e2e() {
                 out.push(format!("c01.e2e {mode} {shards} {pad} {inst} {a} {}", rec_str(&recs)));
             }
             out
-        },
+}
+
+#[test]
+fn verif_c01_e2e() {
+    run_suite("c01_e2e", gen_e2e, exec);
+}
+
+// ---- the same suites under the compact step table (props/C01.json "extra_builds": built with
+// `--no-default-features --features compact-gate,…` and IPA_VERIF_DIR = harness/c01_compact, thorough tier).
+// Distinct suite / test names; the quick-tier request lists are used (a second full build plus ~50
+// protocol runs). The two F8 witnesses are left to the default build (known_findings matches by suite).
+#[cfg(compact_gate)]
+#[test]
+fn verif_c01c_stages() {
+    run_suite("c01c_stages", |rng, _| gen_stages(rng, false), exec);
+}
+
+#[cfg(compact_gate)]
+#[test]
+fn verif_c01c_e2e() {
+    run_suite(
+        "c01c_e2e",
+        |rng, _| gen_e2e(rng, false).into_iter().filter(|l| !l.ends_with(" 2 0 prod 0,0,0,0 i:1:2,c:1:3,i:2:2,c:2:4")).collect(),
         exec,
     );
 }
